@@ -242,8 +242,21 @@ package parser
 //@   atcall ParseFile: {C12} !sameFile(stat, *dstStat)
 //@   atcall ParseFile: {C12,C11} $arg3 == parser.ParseComments ==> sameFile(stat, *srcStat)
 //@
+// C12 "convergen behaves exactly as if the path were empty": the package loader looks at every file of the
+// directory (package clause, imports) before the ParseFile hook can skip the old output, so the old output is
+// overlaid by an empty file of the setup file's package whenever it exists and lives next to the setup file.
+//@ func hideOldOutput(srcPath, dstPath, dstStat) (r)
+//@   effects fs-read, parsefile
+//@   assigns nothing
+//@   split exits
+//@   ensures {C12} dstStat == nil ==> r == nil
+//@   ensures {C12} r != nil ==> fresh(r) && has(r, filepathAbs(dstPath))
+//@   ensures {C12} dstStat != nil && filepathAbsErr(srcPath) == nil && filepathAbsErr(dstPath) == nil && filepathDir(filepathAbs(srcPath)) == filepathDir(filepathAbs(dstPath)) && !parseFails(srcPath, parser.PackageClauseOnly) ==> r != nil && has(r, filepathAbs(dstPath))
+//@
 //@ func NewParser(srcPath, dstPath) (p, e)
 //@   effects fs-read, parsefile, log, warn
+//@   atcall Load: {C12} $arg0.Overlay == overlay
+//@   atcall Load: {C12} *dstStat != nil && filepathAbsErr(srcPath) == nil && filepathAbsErr(dstPath) == nil && filepathDir(filepathAbs(srcPath)) == filepathDir(filepathAbs(dstPath)) && !parseFails(srcPath, parser.PackageClauseOnly) ==> has($arg0.Overlay, filepathAbs(dstPath))
 //@   assigns boxes(*ast.File), boxes(error)
 //@   assume-after Load: *fileSrc != nil || *parseErr != nil
 //@   ensures {C12,C14} e == nil ==> p != nil && fresh(p) && wfP(p) && p.intfEntries == nil
